@@ -4,6 +4,7 @@ import (
 	"fmt"
 	"go/ast"
 	"go/token"
+	"go/types"
 	"strings"
 
 	"j5verif/checker/core"
@@ -22,6 +23,7 @@ func C07(r *core.Run) {
 	r.Floor("R-EXT/G4", 1, "setJ5Ext's copy loop")
 	bitSizes(r, "lib/j5reflect", "scalarReflectFromAST")
 	dependencyCompleteness(r)
+	containerPairs(r, "internal/j5s/j5convert", "internal/j5s/sourcewalk")
 	rules.ImportPairing(r)
 	r.Floor("R-EXT/G3", 25, "one per SetExtension site in j5convert")
 }
@@ -91,4 +93,75 @@ func dependencyCompleteness(r *core.Run) {
 	default:
 		o.Auto("every non-error iteration reaches the top-level append")
 	}
+}
+
+// containerPairs (R-EXH/X5): arrays and maps are the two container kinds of
+// the field-type oneof; code that looks inside one of them (to find
+// references, nested definitions, item rules) must look inside the other too.
+// Every type switch over the field-type family in the listed packages that has
+// a case for one container kind must have a case for the other.
+func containerPairs(r *core.Run, rels ...string) {
+	r.Rule("R-EXH/X5", "every type switch over schema_j5pb.isField_Type that has a case for Field_Array also has one for Field_Map and vice versa: a walk that unwraps only one container kind misses what the other holds (references, nested schemas, item rules)")
+	it, _ := rules.ClosedUniverse(r, schemaPB, "isField_Type")
+	if it == nil {
+		return
+	}
+	n := 0
+	for _, rel := range rels {
+		pk := r.P.Pkg(rel)
+		if pk == nil {
+			r.Fatal("anchor: package %s not found", rel)
+			continue
+		}
+		info := pk.TypesInfo
+		core.AllFuncDecls(pk, func(fd *ast.FuncDecl) {
+			k := 0
+			ast.Inspect(fd.Body, func(nd ast.Node) bool {
+				ts, ok := nd.(*ast.TypeSwitchStmt)
+				if !ok {
+					return true
+				}
+				var subj ast.Expr
+				switch a := ts.Assign.(type) {
+				case *ast.AssignStmt:
+					if len(a.Rhs) == 1 {
+						if ta, ok := core.Unparen(a.Rhs[0]).(*ast.TypeAssertExpr); ok {
+							subj = ta.X
+						}
+					}
+				case *ast.ExprStmt:
+					if ta, ok := core.Unparen(a.X).(*ast.TypeAssertExpr); ok {
+						subj = ta.X
+					}
+				}
+				if subj == nil || !types.Identical(info.TypeOf(subj), it) {
+					return true
+				}
+				has := map[string]bool{}
+				for _, cl := range ts.Body.List {
+					for _, e := range cl.(*ast.CaseClause).List {
+						if nt := core.NamedOf(info.TypeOf(e)); nt != nil {
+							has[nt.Obj().Name()] = true
+						}
+					}
+				}
+				if !has["Field_Array"] && !has["Field_Map"] {
+					return true
+				}
+				k++
+				n++
+				o := r.Add("R-EXH/X5", fmt.Sprintf("%s.%s | switch#%d | containers", rel, core.FuncName(fd), k), ts.Pos(), "container cases of a field-type switch")
+				switch {
+				case has["Field_Array"] && has["Field_Map"]:
+					o.Auto("cases for both Field_Array and Field_Map")
+				case has["Field_Array"]:
+					o.Fail("the switch unwraps arrays but has no case for Field_Map: whatever it collects is missed for map values (a type referenced only as a map value, rules of map items)")
+				default:
+					o.Fail("the switch unwraps maps but has no case for Field_Array")
+				}
+				return true
+			})
+		})
+	}
+	r.Floor("R-EXH/X5", 2, "field-type switches with a container case")
 }
